@@ -34,7 +34,7 @@ def run(ctx):
     R.r05_3_pairs(ctx, 'R02.8')
     S.r02_9_requiredness(ctx)
     R.r05_7_defaults(ctx, 'R02.10')
-    S.r04_5_strip_tags(ctx, 'R02.11')
+    S.r04_5_strip_tags(ctx, 'R02.11', keep_core=True)
     from . import round3 as R3
     R3.r01_10_tree_untouched(ctx, 'R02.12')
     R3.r02_13_init_arguments(ctx)
